@@ -1635,7 +1635,11 @@ class Field(SupportComplexDataType):
                     delattr(self, component_name)
             else:
                 component = getattr(self, component_name)
-                component_ref = self.structure_by_name[component_name]['ref']
+                try:
+                    component_ref = self.structure_by_name[component_name]['ref']
+                except (TypeError, KeyError):
+                    # e.g. a field of type varies: its components have no structure, hence no named subcomponents
+                    raise ChildNotFound(name)
                 component_datatype = component_ref[2]
                 subcomponent_name = '{0}_{1}'.format(component_datatype, subcomponent)
                 try:
